@@ -162,7 +162,7 @@ class ValueGen:
                     return (s + "x" * n)[:n]
                 lo, hi = self._len_bounds(body_of, ins.length)
                 hi = min(hi, max(lo, 10))
-                s = gen_string(rng, max_len=hi, min_len=lo, allow_tilde=not enc)
+                s = gen_string(rng, max_len=hi, min_len=lo, allow_tilde=not enc, allow_y=not ins.padded)
                 return (s + "x" * lo)[: max(lo, len(s))]
             return gen_string(rng, max_len=8, allow_tilde=not enc)
         if kind == "blob":
